@@ -22,7 +22,7 @@ import collections
 
 from hypothesis import strategies as st
 
-from vf import gen, provider, refsem, sched
+from vf import lang, gen, provider, refsem, sched
 from vf.props import common
 from vf.runner import Part, Reject, Violation
 
@@ -126,6 +126,11 @@ def run(scn, stats):
         stats.engine_exception(e, scn)
         return
     except Violation as v:
+        if fo.flow.late_arrivals:
+            # the run is inside the region of known finding R1 (the harness may hold two actions for one
+            # execution of the join): nothing after that point is this check's business
+            stats.excluded["R1"] += 1
+            return
         if isinstance(v.detail, dict):
             v.detail.setdefault("events", sorted(fo.flow.events))
         raise
@@ -140,6 +145,13 @@ def run(scn, stats):
                 disp_h_at = collections.Counter(map(tuple, drvh.dispatched))
             if op["op"] == "req":
                 continue
+            if op["op"] == "done" and list(op["a"]) not in drvh.inflight:
+                # route numbers are handed out in the order transitions into split tasks are processed,
+                # which the pause may change: follow the same task / item under its number in the twin
+                same = [x for x in drvh.inflight if x[0] == op["a"][0] and x[2] == op["a"][2]]
+                if len(same) == 1 and lang.is_split(scn["ir"], op["a"][0]) or (len(same) == 1 and op["a"][1] != 0):
+                    op = dict(op, a=list(same[0]))
+                    labels.add("route-renamed-in-twin")
             if op["op"] == "done" and list(op["a"]) not in drvh.inflight:
                 if drvp.status() in ("failed", "canceled") and drvh.status() == drvp.status():
                     # after a failure inside the window the twins legitimately diverge in what is
@@ -185,7 +197,9 @@ def run(scn, stats):
         instant = any(k[2] == "empty" for k in list(disp_after_resume_poll) + list(disp_h_at))
         # (an empty with-items task completes inside the poll that offers it and may make further
         # work due at once, so the eager twin can be one poll ahead: those cases are not compared)
-        if not instant and disp_after_resume_poll != disp_h_at:
+        # (compared without route numbers: they are handed out in processing order, which the pause changes)
+        noroute = lambda c_: collections.Counter((t_, i_) for (t_, r_, i_) in c_.elements())  # noqa
+        if not instant and noroute(disp_after_resume_poll) != noroute(disp_h_at):
             raise Violation("resume-did-not-continue-with-held-back-work", dict(info, paused_twin=sorted(disp_after_resume_poll.elements()), plain_twin=sorted(disp_h_at.elements()), history=hist, events=ev))
     sp, sh = drvp.status(), drvh.status()
     if sp != sh:
